@@ -1,0 +1,48 @@
+//go:build verif
+
+package statsd
+
+import (
+	"context"
+	"time"
+
+	"github.com/atlassian/gostatsd"
+	"github.com/atlassian/gostatsd/internal/flush"
+	"github.com/atlassian/gostatsd/internal/lexer"
+	"github.com/atlassian/gostatsd/internal/pool"
+	"github.com/atlassian/gostatsd/internal/util"
+)
+
+// VerifLexer gives the verification harness access to the internal line lexer.
+type VerifLexer struct {
+	l lexer.Lexer
+}
+
+// VerifNewLexer returns a lexer with its own metric pool.
+func VerifNewLexer(estimatedTags int) *VerifLexer {
+	return &VerifLexer{l: lexer.Lexer{MetricPool: pool.NewMetricPool(estimatedTags)}}
+}
+
+// Run lexes one line (which it may modify in place), exactly as DatagramParser.parseLine does.
+func (vl *VerifLexer) Run(line []byte, namespace string) (*gostatsd.Metric, *gostatsd.Event, error) {
+	return vl.l.Run(line, namespace)
+}
+
+// VerifSetNow replaces the clock used by Reset for expiry decisions.
+func (a *MetricAggregator) VerifSetNow(now func() time.Time) {
+	a.now = now
+}
+
+// VerifFlushCoordinator mirrors flush.Coordinator, which lives in an internal package.
+type VerifFlushCoordinator = flush.Coordinator
+
+// VerifNewFlushCoordinator returns a real flush coordinator.
+func VerifNewFlushCoordinator() flush.Coordinator {
+	return flush.NewFlushCoordinator()
+}
+
+// VerifNewAlignedTicker returns the channel and stop function of a real aligned ticker.
+func VerifNewAlignedTicker(ctx context.Context, interval, offset time.Duration) (<-chan time.Time, func()) {
+	t := util.NewAlignedTickerWithContext(ctx, interval, offset)
+	return t.C, t.Stop
+}
